@@ -312,6 +312,10 @@ def unit_keys(ctx):
         run_genmi(ctx, ln, base, rej[a] + rej[b] + rng.randbytes(ln), "genmi:reject2:" + tag)
         run_genmi(ctx, ln, base, rej[3] + rng.randbytes(ln), "genmi:reject-subfield:" + tag)
         run_genmi(ctx, ln, base, rng.randbytes(3 * ln), "genmi:random:" + tag)
+        # candidates of small degree: x + 1 is rejected (degree of the minimal polynomial), x^3 + x + 1 / one word / half
+        # the words with the top ones zero are ordinary field elements whose powers fill all words
+        for small in (b"\x0b", rng.randbytes(8), rng.randbytes(ln // 2), rng.randbytes(ln - 8)):
+            run_genmi(ctx, ln, base, (small + bytes(ln))[:ln] + rng.randbytes(2 * ln), "genmi:short-candidate:" + tag)
         seed = (rng.randbytes(32), rng.randbytes(32))
         bt = brng_tape(lib, seed[0], seed[1], ln)
         lib.release()
